@@ -9,7 +9,7 @@ import gen, lang, findings
 from props import c04
 
 PROP_FILE = 'Props/C14.v'
-GROUPS = []
+GROUPS = ['transformers']
 LEAF_LEMMAS = []
 ASSUMPTIONS = ['absence of state leaking between calls is established by the correspondence on every run, not by a theorem (partial)',
                'clingo itself is deterministic for a fixed configuration']
